@@ -291,12 +291,22 @@ def finish(run, level, failures, coverage_extra=None, assumptions=None, explanat
     if violations:
         os.makedirs(rdir, exist_ok=True)
         shown = {}
-        for i, f in enumerate(violations):
-            key = tuple(sorted(f["clauses"]))
+        # the first case of every clause set before the second of any: no kind of failure is left without a replay file
+        rank, seen_keys = [], {}
+        for f in violations:
+            k0 = (f.get("family"), tuple(sorted(f["clauses"])))
+            rank.append(seen_keys.get(k0, 0))
+            seen_keys[k0] = seen_keys.get(k0, 0) + 1
+        order = sorted(range(len(violations)), key=lambda i: (rank[i], i))
+        for i in order:
+            f = violations[i]
+            key = (f.get("family"), tuple(sorted(f["clauses"])))
             shown[key] = shown.get(key, 0) + 1
             if shown[key] > 3 or sum(shown.values()) > 40:
                 continue
-            path = os.path.join(rdir, "%s-%s-seed%d-case%s.json" % (pid, run.tier, run.seed, f["case"]))
+            # (case numbers are per family: the family is part of the name so that two families of one check cannot collide)
+            fam = f.get("family")
+            path = os.path.join(rdir, "%s-%s-seed%d-%scase%s.json" % (pid, run.tier, run.seed, (fam + "-") if fam and fam != "sync" else "", f["case"]))
             with open(path, "w") as fh:
                 json.dump(dict(property=pid, family=f.get("family"), clauses=sorted(f["clauses"]),
                                signature=f.get("signature"), text=f.get("text", ""),
